@@ -228,44 +228,37 @@ def check_stack_like(ctx, rp, q, listname, first_wins_target):
         ctx.undec('R-SUMLEN', q, where, 'length of the stacked dimension is not spelled as a sum over the file list')
     # R-FIRSTWINS (typestate: "present in output" at the store)
     out = first_wins_target
-    state = {'present': False}
-    hits = []
-
-    def cond(test, st):
-        t = norm(test)
-        pos = '%s in %s.variables' % ('varkey', out)
-        neg = '%s not in %s.variables' % ('varkey', out)
-        if t.startswith(neg):
-            a, b = dict(st), dict(st)
-            a['present'], b['present'] = False, True
-            return a, b
-        if t.startswith(pos):
-            a, b = dict(st), dict(st)
-            a['present'], b['present'] = True, False
-            return a, b
-        return st, st
-
-    def transfer(s, st):
-        for c in walk_expr(s) if not isinstance(s, (ast.If, ast.For, ast.While)) else []:
-            if isinstance(c, ast.Call) and isinstance(c.func, ast.Attribute) and c.func.attr in ('copyVariable', 'addVariable', 'createVariable') \
-                    and (norm(c.func.value) == out or out in [norm(a) for a in c.args[:2]]):
-                hits.append((s, st.get('present')))
-        return st
-
-    def vjoin(a, b):
-        return a if a == b else 'maybe'
-    # walk only the per-variable loop body
-    loops = [s for s in iter_stmts(fn.body) if isinstance(s, ast.For) and isinstance(s.target, ast.Tuple) and s.target.elts
-             and isinstance(s.target.elts[0], ast.Name) and s.target.elts[0].id == 'varkey']
+    # path-wise over the per-variable loop body, named conditions substituted: every path that stores a variable into the output has
+    # decided that the key is not there yet
+    from .. import paths as _paths
+    loops = [s for s in iter_stmts(fn.body) if isinstance(s, ast.For) and isinstance(s.target, ast.Tuple) and len(s.target.elts) == 2
+             and isinstance(s.target.elts[0], ast.Name) and norm(s.iter).endswith('.variables.items()')]
     if not loops:
         raise AnalysisError('construct not understood: per-variable loop of %s' % q)
-    w = Walker(transfer, vjoin, cond=cond)
-    w.run(loops[0].body, {'present': 'maybe'})
+    kname = loops[0].target.elts[0].id
+    present = ('%s in %s.variables' % (kname, out), '%s in %s.variables.keys()' % (kname, out))
+    hits = {}
+    for pth in _paths.enumerate_paths(loops[0].body):
+        res = _paths.expand(pth, keep=(out,))
+        if not res.feasible:
+            continue
+        for k_, (s, new) in enumerate(res.stmts):
+            if isinstance(s, (ast.If, ast.For, ast.While)):
+                continue
+            for c in walk_expr(s):
+                if isinstance(c, ast.Call) and isinstance(c.func, ast.Attribute) and c.func.attr in ('copyVariable', 'addVariable', 'createVariable') \
+                        and (norm(c.func.value) == out or out in [norm(a) for a in c.args[:2]]):
+                    before = res.conds[:res.ncond_at[k_]]
+                    pres = None
+                    for e_, x, p_ in before:
+                        if norm(x) in present:
+                            pres = p_
+                    hits.setdefault(id(s), (s, []))[1].append(pres)
     if not hits:
         raise AnalysisError('construct not understood: variable store in %s' % q)
-    for s, pres in hits:
-        if pres is False:
-            ctx.ok('R-FIRSTWINS', '%s:%d' % (q, s.lineno), where, 'store reached only when the key is not yet in the output')
+    for s, press in hits.values():
+        if all(p_ is False for p_ in press):
+            ctx.ok('R-FIRSTWINS', '%s:%d' % (q, s.lineno), where, 'store reached only when the key is not yet in the output (%d paths)' % len(press))
         else:
             ctx.violation(Finding('R-FIRSTWINS', rp, q, s, 'a variable that is already in the output can reach this store: a later file '
                                   'overwrites the value taken from the first file'))
@@ -310,12 +303,21 @@ def check_delegate(ctx, rp, q):
     if not good:
         ctx.violation(Finding('R-DELEGATE', rp, q, rets[-1], 'the multi-file helper does not return first.stack(rest, stackdim=...)'))
         return
-    first = r.func.value.id
-    rest = r.args[0] if r.args else None
-    # first = files[0], rest = files[1:]
-    fdef = [s for s in iter_stmts(fn.body) if isinstance(s, ast.Assign) and isinstance(s.targets[0], ast.Name) and s.targets[0].id == first]
-    ok1 = fdef and isinstance(fdef[-1].value, ast.Subscript) and norm(fdef[-1].value.slice) == '0'
-    lname = norm(fdef[-1].value.value) if ok1 else None
+    # names are resolved through the plain assignments that dominate the return (paths.dominating_env), one level at a time
+    from .. import paths as _paths
+    env = _paths.dominating_env(fn, rets[-1], deep=False)
+
+    def resolve(e):
+        for _ in range(6):
+            if isinstance(e, ast.Name) and e.id in env:
+                e = env[e.id]
+            else:
+                break
+        return e
+    first = resolve(r.func.value)
+    rest = resolve(r.args[0]) if r.args else None
+    ok1 = isinstance(first, ast.Subscript) and norm(first.slice) == '0' and isinstance(first.value, ast.Name)
+    lname = norm(first.value) if ok1 else None
     ok2 = isinstance(rest, ast.Subscript) and norm(rest.value) == lname and norm(rest.slice) == '1:'
     sd = kw(r, 'stackdim') or (r.args[1] if len(r.args) > 1 else None)
     ok3 = sd is not None and norm(sd) == 'stackdim'
